@@ -327,6 +327,16 @@ def unchanged(o, old):
     return conj("frame:vector-unchanged-(same-objects,no-writes,same-schema)", same_schema(o, old) + data_untouched(o, old))
 
 
+def T(fn):
+    """Tag every clause of a postcondition with the enumerated case (verify mode), so that obligation names are unique and stable."""
+    def g(s):
+        out = fn(s)
+        if getattr(s, "mode", "") == "verify" and getattr(s, "case", None):
+            return tagl(s.case, [x if isinstance(x, tuple) else (f"c{i}", x) for i, x in enumerate(out)])
+        return out
+    return g
+
+
 def tagl(case, items):
     return [(f"{lab}[{case}]", t) for lab, t in items]
 
@@ -401,7 +411,7 @@ def nl_ensures(s):
             ("all-sublists-freshly-allocated", disjoint(subs, pre))]
 
 
-C_NESTED = Contract(f"{VEC}:nested_list", setup=nl_setup, ensures=nl_ensures,
+C_NESTED = Contract(f"{VEC}:nested_list", setup=nl_setup, ensures=T(nl_ensures),
                     requires=lambda s: [("shape-is-a-tuple-of-concrete-non-negative-ints", isinstance(s.shape, tuple) and all(isinstance(d, int) and d >= 0 for d in s.shape))],
                     result=lambda ctx, s: spec_fresh_nested(tuple(s.shape), s.fill), recursive_by_contract=True)
 
@@ -449,7 +459,7 @@ def vs_ensures(s):
             ("all-dimensions-positive", AND(*[lift(a) > 0 for a in r]) if ok and r else ok)]
 
 
-C_VSHAPE = Contract(f"{VAL}:validate_shape", setup=vs_setup, ensures=vs_ensures,
+C_VSHAPE = Contract(f"{VAL}:validate_shape", setup=vs_setup, ensures=T(vs_ensures),
                     raises={TypeError: lambda s: _vs_first_bad(s.shape)[0], ValueError: lambda s: _vs_first_bad(s.shape)[1]},
                     result=lambda ctx, s: tuple(s.shape))
 
@@ -476,7 +486,7 @@ def vf_ensures(s):
             ("names-are-unique", all_distinct(r) if ok else False)]
 
 
-C_VFIELDS = Contract(f"{VAL}:validate_fields", setup=vf_setup, ensures=vf_ensures,
+C_VFIELDS = Contract(f"{VAL}:validate_fields", setup=vf_setup, ensures=T(vf_ensures),
                      requires=lambda s: [("elements-are-strings", all(strlike(x) for x in s.fields) if isinstance(s.fields, (list, tuple)) else True)],
                      raises={TypeError: lambda s: not isinstance(s.fields, (list, tuple)),
                              ValueError: lambda s: NOT(all_distinct(list(s.fields))) if isinstance(s.fields, (list, tuple)) else False},
@@ -497,9 +507,9 @@ def _vn_int(s):
 
 
 C_VNUM = Contract(f"{VAL}:validate_num_fields", setup=vn_setup,
-                  ensures=lambda s: [("returns-num_fields", B(S(s.result) == S(s.num_fields)) if _vn_int(s) else False),
-                                     ("positive", lift(s.result) > 0 if _vn_int(s) else False),
-                                     ("matches-fields", B(S(s.result) == len(s.fields)) if s.fields is not None and _vn_int(s) else True)],
+                  ensures=T(lambda s: [("returns-num_fields", B(S(s.result) == S(s.num_fields)) if _vn_int(s) else False),
+                                       ("positive", lift(s.result) > 0 if _vn_int(s) else False),
+                                       ("matches-fields", B(S(s.result) == len(s.fields)) if s.fields is not None and _vn_int(s) else True)]),
                   raises={TypeError: lambda s: not _vn_int(s),
                           ValueError: lambda s: OR(lift(s.num_fields) <= 0, B(S(s.num_fields) != len(s.fields)) if s.fields is not None else False) if _vn_int(s) else False},
                   result=lambda ctx, s: s.num_fields)
@@ -530,7 +540,7 @@ def vu_ensures(s):
     return out
 
 
-C_VUNITS = Contract(f"{VAL}:validate_vector_units", setup=vu_setup, ensures=vu_ensures,
+C_VUNITS = Contract(f"{VAL}:validate_vector_units", setup=vu_setup, ensures=T(vu_ensures),
                     requires=lambda s: [("num_fields-is-a-concrete-non-negative-int", isinstance(s.num_fields, int) and s.num_fields >= 0),
                                         ("elements-are-strings", all(strlike(x) for x in s.units) if isinstance(s.units, (list, tuple)) else True)],
                     raises={TypeError: lambda s: s.units is not None and not isinstance(s.units, (list, tuple)),
@@ -750,8 +760,6 @@ def init_ensures(s):
         ("sharing:metadata-is-the-caller's-dict-or-a-freshly-allocated-one",
          (md is given) if given is not None else (isinstance(md, dict) and disjoint([md], pre))),
     ]
-    if s.mode == "verify":
-        out[-1] = (out[-1][0] + f"[{s.case}]", out[-1][1])
     return out
 
 
@@ -768,7 +776,7 @@ def init_requires(s):
             ("units-is-a-list-of-strings", isinstance(s.units, list) and all(strlike(x) for x in s.units))]
 
 
-C_INIT = Contract(f"{VEC}:Vector.__init__", setup=init_setup, requires=init_requires, ensures=checked(init_ensures), modifies=init_modifies,
+C_INIT = Contract(f"{VEC}:Vector.__init__", setup=init_setup, requires=init_requires, ensures=T(checked(init_ensures)), modifies=init_modifies,
                   raises={RuntimeError: lambda s: not init_token_ok(s),
                           ValueError: lambda s: AND(init_token_ok(s), OR(NOT(all_distinct(s.fields)), len(s.units) != len(s.fields)))})
 
@@ -843,7 +851,7 @@ def fs_requires(s):
             ("name-is-None-or-a-concrete-str", s.name is None or isinstance(s.name, str))]
 
 
-C_FROM_SHAPE = Contract(f"{VEC}:Vector.from_shape", setup=fs_setup, requires=fs_requires, ensures=checked(fs_ensures), result=fs_result,
+C_FROM_SHAPE = Contract(f"{VEC}:Vector.from_shape", setup=fs_setup, requires=fs_requires, ensures=T(checked(fs_ensures)), result=fs_result,
                         raises={ValueError: fs_value_error})
 
 # ---- copy
@@ -873,10 +881,10 @@ def copy_ensures(s):
         ("copy:same-cells-populated", same_cells),
         ("copy:cell-contents-equal", eq),
         ("sharing:copy-shares-no-mutable-object-with-the-original-or-earlier-objects", disjoint(mutable_parts(c), pre) and distinct_objects(mutable_parts(c))),
-    ] + same_schema(o, old) + data_untouched(o, old)
+    ] + unchanged(o, old)
 
 
-C_COPY = Contract(f"{VEC}:Vector.copy", setup=copy_setup, requires=lambda s: inv(s.self), ensures=copy_ensures, snapshot=lambda s: snap_vec(s.self))
+C_COPY = Contract(f"{VEC}:Vector.copy", setup=copy_setup, requires=lambda s: inv(s.self), ensures=T(copy_ensures), snapshot=lambda s: snap_vec(s.self))
 
 
 # ------------------------------------------------------------------------------------------------
@@ -1446,10 +1454,10 @@ def af_ensures(s):
 
 
 def raise_unchanged(s, E):
-    return conj("vector-unchanged-when-an-exception-escapes", same_schema(s.self, s.old) + data_untouched(s.self, s.old))
+    return tagl(s.case, conj("vector-unchanged-when-an-exception-escapes", same_schema(s.self, s.old) + data_untouched(s.self, s.old)))
 
 
-C_ADD_FIELDS = Contract(f"{VEC}:Vector.add_fields", setup=af_setup, requires=lambda s: inv(s.self), ensures=af_ensures, snapshot=lambda s: snap_vec(s.self),
+C_ADD_FIELDS = Contract(f"{VEC}:Vector.add_fields", setup=af_setup, requires=lambda s: inv(s.self), ensures=T(af_ensures), snapshot=lambda s: snap_vec(s.self),
                         raises={ValueError: af_value_error}, on_raise=raise_unchanged)
 
 
@@ -1475,7 +1483,7 @@ def rf_ensures(s):
         cols = [forall([r], implies(inr, lift(now.fn(r, z3.IntVal(j))) == lift(was.fn(r, z3.IntVal(i))))) for j, i in enumerate(keep)]
         return AND(B(S(now.shape[0]) == S(was.shape[0])), B(S(now.shape[1]) == len(keep)), *cols)
 
-    out = inv(o) + [
+    out = conj("Inv-preserved", inv(o)) + [
         ("fields-are-the-remaining-names-in-order", AND(len(f["_fields"]) == len(keep), *[str_eq(a, old.fields[i]) for a, i in zip(f["_fields"], keep)])),
         ("units-are-the-remaining-units-in-order", AND(len(f["_units"]) == len(keep), *[str_eq(a, old.units[i]) for a, i in zip(f["_units"], keep)])),
         ("cells:same-rows,-remaining-columns-kept-in-order,-unset-stays-unset", cells_relation(o, old, rel)),
@@ -1487,7 +1495,7 @@ def rf_ensures(s):
     return out
 
 
-C_REMOVE_FIELDS = Contract(f"{VEC}:Vector.remove_fields", setup=rf_setup, requires=lambda s: inv(s.self), ensures=rf_ensures, snapshot=lambda s: snap_vec(s.self))
+C_REMOVE_FIELDS = Contract(f"{VEC}:Vector.remove_fields", setup=rf_setup, requires=lambda s: inv(s.self), ensures=T(rf_ensures), snapshot=lambda s: snap_vec(s.self))
 
 # ------------------------------------------------------------------------------------------------
 # flatten / field views
@@ -1535,7 +1543,7 @@ def vflat_ensures(s):
     return out + unchanged(o, old)
 
 
-C_VFLATTEN = Contract(f"{VEC}:Vector.flatten", setup=vflat_setup, requires=lambda s: inv(s.self), ensures=vflat_ensures, snapshot=lambda s: snap_vec(s.self))
+C_VFLATTEN = Contract(f"{VEC}:Vector.flatten", setup=vflat_setup, requires=lambda s: inv(s.self), ensures=T(vflat_ensures), snapshot=lambda s: snap_vec(s.self))
 
 
 def mk_view(ctx, name, vecs=FLAT_VECS):
@@ -1588,7 +1596,7 @@ def fvflat_result(ctx, s):
     return a
 
 
-C_FV_FLATTEN = Contract(f"{VEC}:_FieldView.flatten", setup=fvflat_setup, requires=view_requires, ensures=fvflat_ensures, result=fvflat_result,
+C_FV_FLATTEN = Contract(f"{VEC}:_FieldView.flatten", setup=fvflat_setup, requires=view_requires, ensures=T(fvflat_ensures), result=fvflat_result,
                         snapshot=lambda s: snap_vec(s.self.fields["vector"]))
 
 
@@ -1675,11 +1683,11 @@ def sf_snapshot(s):
     return o
 
 
-C_FV_SETFLAT = Contract(f"{VEC}:_FieldView.set_flattened", setup=sf_setup, ensures=sf_ensures, snapshot=sf_snapshot,
+C_FV_SETFLAT = Contract(f"{VEC}:_FieldView.set_flattened", setup=sf_setup, ensures=T(sf_ensures), snapshot=sf_snapshot,
                         requires=lambda s: view_requires(s) + [("values-is-an-array", is_cell_array(s.values))],
                         modifies=lambda ctx, s: havoc_cells(ctx, s.self.fields["vector"]),
                         raises={ValueError: sf_value_error},
-                        on_raise=lambda s, E: conj("vector-unchanged-when-an-exception-escapes", same_schema(s.self.fields["vector"], s.old) + data_untouched(s.self.fields["vector"], s.old)))
+                        on_raise=lambda s, E: tagl(s.case, conj("vector-unchanged-when-an-exception-escapes", same_schema(s.self.fields["vector"], s.old) + data_untouched(s.self.fields["vector"], s.old))))
 
 
 def abstract_op(ctx):
@@ -1719,7 +1727,7 @@ def ao_ensures(s):
     return column_update_post(v, old, j, new_value) + [("returns-None", s.result is None)]
 
 
-C_FV_APPLY = Contract(f"{VEC}:_FieldView._apply_op", setup=ao_setup, requires=view_requires, ensures=ao_ensures,
+C_FV_APPLY = Contract(f"{VEC}:_FieldView._apply_op", setup=ao_setup, requires=view_requires, ensures=T(ao_ensures),
                       snapshot=lambda s: snap_vec(s.self.fields["vector"]), modifies=lambda ctx, s: havoc_cells(ctx, s.self.fields["vector"]))
 
 ARITH = {"__iadd__": lambda x, y: x + y, "__isub__": lambda x, y: x - y, "__imul__": lambda x, y: x * y, "__itruediv__": lambda x, y: x / y,
@@ -1739,7 +1747,7 @@ def arith_contract(name):
         j = s.self.fields["field_index"]
         return column_update_post(v, s.old, j, lambda n, k, was, r: f(S(was.fn(r, z3.IntVal(j))), s.other)) + [("returns-the-view-itself", s.result is s.self)]
 
-    return Contract(f"{VEC}:_FieldView.{name}", setup=setup, requires=view_requires, ensures=ensures, snapshot=lambda s: snap_vec(s.self.fields["vector"]))
+    return Contract(f"{VEC}:_FieldView.{name}", setup=setup, requires=view_requires, ensures=T(ensures), snapshot=lambda s: snap_vec(s.self.fields["vector"]))
 
 
 C_ARITH = [arith_contract(n) for n in ARITH]
@@ -1825,7 +1833,7 @@ def us_ensures(s):
         "frame:everything-else-unchanged", [x for x in same_schema(o, old) if "units" not in x[0]] + data_untouched(o, old))
 
 
-C_SET_UNITS = Contract(f"{VEC}:Vector.units.fset", setup=us_setup, requires=lambda s: inv(s.self), ensures=us_ensures, snapshot=lambda s: snap_vec(s.self),
+C_SET_UNITS = Contract(f"{VEC}:Vector.units.fset", setup=us_setup, requires=lambda s: inv(s.self), ensures=T(us_ensures), snapshot=lambda s: snap_vec(s.self),
                        raises={TypeError: lambda s: s.value is not None and not isinstance(s.value, (list, tuple)),
                                ValueError: lambda s: isinstance(s.value, (list, tuple)) and len(s.value) != len(s.self.fields["_fields"])},
                        on_raise=raise_unchanged)
